@@ -44,7 +44,11 @@ END == "end"
 Range(s) == {s[i] : i \in 1..Len(s)}
 
 GNodes(g) == Range(g.nodes)
-GEdges(g) == {<<e[1], e[2]>> : e \in Range(g.edges)}
+\* edges are <<from, to>> or <<from, to, kind>>, kind "cd" (control + data, default) | "c" (control only: Workflow AddDependency) |
+\* "d" (data only: input without direct dependency)
+EKind(e) == IF Len(e) >= 3 THEN e[3] ELSE "cd"
+GEdges(g) == {<<e[1], e[2]>> : e \in {x \in Range(g.edges) : EKind(x) # "d"}}          \* control edges
+DEdges(g) == {<<e[1], e[2]>> : e \in {x \in Range(g.edges) : EKind(x) = "d"}}          \* data-only edges
 \* branches: [from, ends, sel] -- the condition of the harness statically selects `sel` (a non-empty subset of `ends`)
 GBranches(g) == Range(g.branches)
 CtrlPreds(g, n) == {e[1] : e \in {x \in GEdges(g) : x[2] = n}} \cup {b.from : b \in {x \in GBranches(g) : n \in Range(x.ends)}}
@@ -80,7 +84,7 @@ OnCase(S, e) == [g |-> e, begun |-> {}, done |-> {}, failed |-> {}, aborted |-> 
 OnExec(S, e) == LET g == S.g  n == e.n IN
   IF n \notin GNodes(g) THEN Bad(S, "exec-of-unknown-node")
   ELSE IF n \in S.begun /\ n \notin S.redo THEN Bad(S, "node-executed-twice")
-  ELSE IF \E p \in CtrlPreds(g, n) \ {START} : p \in Running(S) \/ (g.branches = <<>> /\ p \notin S.done)
+  ELSE IF \E p \in (CtrlPreds(g, n) \cup {y[1] : y \in {x \in DEdges(g) : x[2] = n}}) \ {START} : p \in Running(S) \/ (g.branches = <<>> /\ p \notin S.done)
        THEN Bad(S, "exec-before-predecessor-finished")
   ELSE IF n \notin S.redo /\ \E s \in S.begun : n \in CtrlPreds(g, s) THEN Bad(S, "predecessor-started-after-successor")
   ELSE IF IsBatch(g) /\ \E m \in Running(S) : LevelOf(g, m) < LevelOf(g, n) THEN Bad(S, "batch-step-overlap")
